@@ -323,6 +323,9 @@ func (s *Server) reverseSCION() error {
 	if s.scionLayer.Path, err = s.scionLayer.Path.Reverse(); err != nil {
 		return serrors.Wrap("reversing path", err)
 	}
+	// Reversing can change the path type (a one-hop path is reversed into a
+	// SCION path); the header must announce the type of the path it carries.
+	s.scionLayer.PathType = s.scionLayer.Path.Type()
 	return nil
 }
 
